@@ -7,8 +7,9 @@ import subprocess
 VERIF = os.path.dirname(os.path.dirname(os.path.abspath(__file__)))
 REPO = os.environ.get("VERIF_REPO", "/repo")
 SRC = os.path.join(VERIF, "replay")
-CRATE = os.path.join(VERIF, "build", "replay-crate")
-TARGET = os.path.join(VERIF, "build", "replay-target")
+BUILD = os.environ.get("VERIF_BUILD") or os.path.join(VERIF, "build")
+CRATE = os.path.join(BUILD, "replay-crate")
+TARGET = os.path.join(BUILD, "replay-target")
 BIN = os.path.join(TARGET, "debug", "vxreplay")
 _built = {}
 
@@ -23,7 +24,7 @@ def build():
     os.makedirs(os.path.join(CRATE, "src"), exist_ok=True)
     # Build against a CONTENT-synchronised copy of the working tree (rsync -c, no mtime preservation): cargo's
     # freshness check is mtime based, so a tree restored with older mtimes would otherwise leave a stale binary.
-    copy = os.path.join(VERIF, "build", "replay-repo")
+    copy = os.path.join(BUILD, "replay-repo")
     os.makedirs(copy, exist_ok=True)
     q = subprocess.run(["rsync", "-rlpc", "--delete", "--exclude", "target", "--exclude", ".git",
                         REPO.rstrip("/") + "/", copy + "/"], capture_output=True, text=True)
@@ -66,7 +67,7 @@ def call(args, timeout=120):
 
 def run_case(case, workdir=None):
     """case = {kind: lex|spans|pipeline|relex|caret, input: str, annotate: bool, ...} -> (rc, output)"""
-    workdir = workdir or os.path.join(VERIF, "build", "replays")
+    workdir = workdir or os.path.join(BUILD, "replays")
     os.makedirs(workdir, exist_ok=True)
     k = case["kind"]
     if k in ("lex", "spans", "pipeline"):
